@@ -36,15 +36,30 @@ func StructValidations(info *types.Info, body ast.Node) []*StructValidation {
 			return true
 		}
 		fn := Callee(info, call)
-		if fn == nil || fn.Pkg() == nil || fn.Pkg().Path() != validationPkg {
+		if fn == nil || fn.Pkg() == nil {
 			return true
 		}
 		first := 0
-		switch fn.Name() {
-		case "ValidateStruct":
+		switch {
+		case fn.Pkg().Path() == validationPkg && fn.Name() == "ValidateStruct":
 			first = 1
-		case "ValidateStructWithContext":
+		case fn.Pkg().Path() == validationPkg && fn.Name() == "ValidateStructWithContext":
 			first = 2
+		case InModule(fn.Pkg()):
+			// module wrapper with the same shape: (..., obj any, fields ...*validation.FieldRules)
+			sig := fn.Type().(*types.Signature)
+			np := sig.Params().Len()
+			if !sig.Variadic() || np < 2 {
+				return true
+			}
+			sl, ok := sig.Params().At(np - 1).Type().(*types.Slice)
+			if !ok {
+				return true
+			}
+			if n, _ := StructOf(sl.Elem()); n == nil || n.Obj().Pkg() == nil || n.Obj().Pkg().Path() != validationPkg || n.Obj().Name() != "FieldRules" {
+				return true
+			}
+			first = np - 1
 		default:
 			return true
 		}
